@@ -287,7 +287,7 @@ func c04reads(c *Ctx) { c04readsOn(c, c.Node(), "C04.reads") }
 // c04readsOn checks digest purity on the vaa package of program p under the given rule name.
 func c04readsOn(c *Ctx, p *load.Program, rule string) {
 	R := c.R
-	allowed := map[string]bool{
+	allowed := map[string]bool{"geth/crypto.Keccak256": true, "geth/common.BytesToHash": true,
 		"N/vaa.MustWrite": true, "(*bytes.Buffer).Write": true, "(*bytes.Buffer).Bytes": true, "(time.Time).Unix": true,
 		"geth/crypto.Keccak256Hash": true, "(geth/common.Hash).Bytes": true, "(*N/vaa.VAA).serializeBody": true, "(*N/vaa.VAA).signingBody": true,
 	}
@@ -325,7 +325,9 @@ func c04readsOn(c *Ctx, p *load.Program, rule string) {
 	dbl := false
 	eachInstr(sm, func(i ssa.Instruction) {
 		if rt, ok := i.(*ssa.Return); ok && len(rt.Results) == 1 {
-			dbl = facts.Term(rt.Results[0]) == "geth/crypto.Keccak256Hash([(geth/common.Hash).Bytes(geth/crypto.Keccak256Hash([(*N/vaa.VAA).signingBody(v)]))])"
+			// (any spelling of keccak(keccak(body)): Keccak256Hash / Keccak256 / BytesToHash)
+			d, inner := keccakChain(rt.Results[0])
+			dbl = d == 2 && facts.Term(inner) == "(*N/vaa.VAA).signingBody(v)"
 		}
 	})
 	R.Check(rule, rule+"/SigningMsg/double-keccak", c.rel(p.Pos(sm.Pos())), "SigningMsg = Keccak256(Keccak256(signingBody())) — the digest both contracts recompute", dbl, "SigningMsg is not the double keccak of the signing body")
